@@ -448,6 +448,37 @@ func vfC15ConsRound(t *testing.T, k *vfKit, c vfC15ConsCase) {
 				"user %s: one kick refused two consecutive reports", u)
 		}
 		k.Count("ev_epilogue_kick_cycles", 1)
+		// The kick belongs to the USER's next report, whatever connects or disconnects in between:
+		// the user's connections (1, then 2) all go away after the kick and before any report, the
+		// user comes back, and the first report is the one that must be refused. Third variant: the
+		// user is not online at all when kicked (n = 0), connects afterwards and reports.
+		for _, n := range []int{1, 2, 0} {
+			for j := 0; j < n; j++ {
+				srv.LogOnlineState(u, true)
+			}
+			if err := vfC15Kick(srv, []string{u}); err != nil {
+				t.Fatalf("harness: %v", err)
+			}
+			kicks[u]++
+			for j := 0; j < n; j++ {
+				srv.LogOnlineState(u, false)
+			}
+			if on, err := vfC15Online(srv); err == nil {
+				if v, listed := on[u]; listed {
+					k.Violation("trafficlogger:online-count-wrong", rep(map[string]any{"user": u, "online": on}), "user %s went online %d times and offline %d times but is still listed: %d", u, n, n, v)
+				}
+			}
+			srv.LogOnlineState(u, true)
+			if log(29, 31) {
+				k.Violation("trafficlogger:kick-lost-across-reconnect", rep(map[string]any{"user": u, "connections_before_kick": n}),
+					"user %s: POST /kick while the user had %d connection(s), all of them went offline without reporting traffic, the user came back online, and the next traffic report returned true (the kick was lost)", u, n)
+			} else if !log(37, 41) {
+				k.Violation("trafficlogger:kick-refuses-more-than-once", rep(map[string]any{"user": u, "connections_before_kick": n}),
+					"user %s: one kick (issued before a reconnect) refused two consecutive reports", u)
+			}
+			srv.LogOnlineState(u, false)
+			k.Count("ev_epilogue_kick_reconnect_cycles", 1)
+		}
 	}
 
 	// online: balanced toggles -> nobody listed; then +n / -n sequentially
@@ -640,6 +671,12 @@ func vfC15RecordHistory(k *vfKit, id string) (vfC15History, error) {
 	for i := range users {
 		users[i] = fmt.Sprintf("u%d", i+1)
 	}
+	// In half of the histories one user is "quiet": sessions and kicks hit it, but nobody reports
+	// traffic for it before the epilogue — so a kick stays pending across online/offline transitions.
+	quiet := ""
+	if r.Intn(2) == 0 {
+		quiet = users[r.Intn(nUsers)]
+	}
 	const nLoggers, nPollers, nKickers = 16, 4, 1
 	nClients := nLoggers + nPollers + nKickers
 	var ctr atomic.Int64 // the ONE monotonic counter all call/return stamps come from
@@ -690,15 +727,33 @@ func vfC15RecordHistory(k *vfKit, id string) (vfC15History, error) {
 			var plans []plan
 			for i := 0; i < nops; i++ {
 				switch {
+				case ci < nLoggers && ci%3 == 0:
+					// "session" client: one connection's life — online, maybe a report, offline. The
+					// offline report comes only after this client's own online report has returned, so
+					// the count can never be negative in any linearization. Sessions make the user's
+					// count go 0 -> n -> 0 (-> n ...) between kicks and reports.
+					if i > 0 {
+						continue
+					}
+					u := users[r.Intn(nUsers)]
+					if quiet != "" && r.Intn(2) == 0 {
+						u = quiet
+					}
+					plans = append(plans, plan{kind: "onl", user: u, on: true})
+					if u != quiet && r.Intn(2) == 0 {
+						plans = append(plans, plan{kind: "log", user: u, tx: vfC15Amount(r) % 100000, rx: vfC15Amount(r) % 100000})
+					}
+					plans = append(plans, plan{kind: "onl", user: u, on: false})
 				case ci < nLoggers:
 					u := users[r.Intn(nUsers)]
+					for u == quiet { // nobody reports for the quiet user before the epilogue
+						u = users[r.Intn(nUsers)]
+					}
 					switch x := r.Intn(10); {
 					case x == 0:
 						plans = append(plans, plan{kind: "onl", user: u, on: true})
 						onStack = append(onStack, u)
 					case x == 1 && len(onStack) > 0:
-						// only after this client's own online report for that user has returned:
-						// the count can then never be negative in any linearization
 						plans = append(plans, plan{kind: "onl", user: onStack[len(onStack)-1], on: false})
 						onStack = onStack[:len(onStack)-1]
 					default:
@@ -720,6 +775,9 @@ func vfC15RecordHistory(k *vfKit, id string) (vfC15History, error) {
 					var ids []string
 					for j := 0; j < n; j++ {
 						u := users[r.Intn(nUsers)]
+						if quiet != "" && r.Intn(2) == 0 {
+							u = quiet
+						}
 						if !seen[u] {
 							seen[u] = true
 							ids = append(ids, u)
@@ -776,15 +834,47 @@ func vfC15RecordHistory(k *vfKit, id string) (vfC15History, error) {
 		h.Ops = append(h.Ops, ops...)
 	}
 	// sequential epilogue (strictly after everything above): it makes the final state visible.
+	// Per user: a report (shows whether a kick of the concurrent phase is still pending), then
+	// online, kick, offline (count back to 0), online, report (must be the refused one), report, offline.
 	ep := nClients
-	for _, u := range users {
-		for j := 0; j < 2; j++ {
-			op := vfC15Op{Client: ep, Kind: "log", User: u, Tx: uint64(1 + j), Rx: uint64(10 + j)}
-			op.Call = ctr.Add(1)
-			op.Ok = srv.LogTraffic(u, op.Tx, op.Rx)
-			op.Ret = ctr.Add(1)
-			h.Ops = append(h.Ops, op)
+	epLog := func(u string, tx, rx uint64) {
+		op := vfC15Op{Client: ep, Kind: "log", User: u, Tx: tx, Rx: rx}
+		op.Call = ctr.Add(1)
+		op.Ok = srv.LogTraffic(u, tx, rx)
+		op.Ret = ctr.Add(1)
+		h.Ops = append(h.Ops, op)
+	}
+	epOnl := func(u string, on bool) {
+		op := vfC15Op{Client: ep, Kind: "onl", User: u, On: on}
+		op.Call = ctr.Add(1)
+		srv.LogOnlineState(u, on)
+		op.Ret = ctr.Add(1)
+		h.Ops = append(h.Ops, op)
+	}
+	for ui, u := range users {
+		epLog(u, 1, 10)
+		n := ui % 3 // connections online when the kick arrives: 0 (kicked while offline), 1, 2
+		for j := 0; j < n; j++ {
+			epOnl(u, true)
 		}
+		b, _ := json.Marshal([]string{u})
+		op := vfC15Op{Client: ep, Kind: "kick", Users: []string{u}}
+		rec := httptest.NewRecorder()
+		req := vfC15Req(http.MethodPost, "/kick", vfC15Secret, b)
+		op.Call = ctr.Add(1)
+		srv.ServeHTTP(rec, req)
+		op.Ret = ctr.Add(1)
+		if rec.Code != http.StatusOK {
+			return h, fmt.Errorf("POST /kick -> %d", rec.Code)
+		}
+		h.Ops = append(h.Ops, op)
+		for j := 0; j < n; j++ {
+			epOnl(u, false)
+		}
+		epOnl(u, true)
+		epLog(u, 2, 11)
+		epLog(u, 3, 12)
+		epOnl(u, false)
 	}
 	for _, target := range []string{"/traffic", "/online", "/traffic?clear=1", "/traffic"} {
 		op := vfC15Op{Client: ep, Kind: "snap", Clear: target == "/traffic?clear=1"}
